@@ -54,13 +54,13 @@ SOURCES["v7"] = dict(SOURCES["v3"], **{"typeshare.toml": '[swift]\ndefault_decor
 
 # v8: a workspace in which a name is ambiguous (imported through a facade crate, defined by two providers) next to an ordinary import:
 # whatever the generator decides, it decides the same in every process, so a re-run finds its own output unchanged
-SOURCES["v8"] = {"app/src/lib.rs": "use facade::Shared;\nuse beta::Extra;\n#[typeshare]\npub struct App { pub s: Shared, pub e: Extra }\n",
+SOURCES["v8"] = {"app/src/lib.rs": "use facade::Shared;\nuse beta::Extra;\nuse beta::Stamp;\n#[typeshare]\npub struct App { pub s: Shared, pub e: Extra, pub at: Stamp }\n",
                  "alpha/src/lib.rs": "#[typeshare]\npub struct Shared { pub a: u32 }\n",
-                 "beta/src/lib.rs": "#[typeshare]\npub struct Shared { pub b: u32 }\n#[typeshare]\npub struct Extra { pub x: u32 }\n",
+                 "beta/src/lib.rs": "#[typeshare]\npub struct Shared { pub b: u32 }\n#[typeshare]\npub struct Extra { pub x: u32 }\n#[typeshare]\npub struct Stamp { pub t: u32 }\n",
                  "facade/src/lib.rs": "pub use alpha::Shared;\n#[typeshare]\npub struct FacadeOwn { pub f: u32 }\n",
                  # ... under a configuration whose mapping tables have several entries, one of them for a type that another crate of the
-                 # workspace shares and this one imports (Extra): whether the import is written is decided the same way in every process
-                 "typeshare.toml": "".join(f'[{l}.type_mappings]\n"Extra" = "{t}"\n"Unused1" = "{t}"\n"Unused2" = "{t}"\n"Unused3" = "{t}"\n"Unused4" = "{t}"\n'
+                 # workspace shares and this one imports (Stamp; the ordinary import of Extra stays unmapped): whether the import is written is decided the same way in every process
+                 "typeshare.toml": "".join(f'[{l}.type_mappings]\n"Stamp" = "{t}"\n"Unused1" = "{t}"\n"Unused2" = "{t}"\n"Unused3" = "{t}"\n"Unused4" = "{t}"\n'
                                            for l, t in (("kotlin", "String"), ("typescript", "string"), ("swift", "String"), ("scala", "String"), ("go", "string"), ("python", "str")))}
 
 
